@@ -535,7 +535,7 @@ Definition execute (now : Z) (d : db) (c : xcmd) (oracle : option frame) : frame
   end.
 
 (** LuaCommandAdapter::execute_lua_command / ServerCommandAdapter::execute_with_context *)
-Definition run (now : Z) (d : db) (parts : list frame) (oracle : option frame) : frame * db :=
+Definition exec_run (now : Z) (d : db) (parts : list frame) (oracle : option frame) : frame * db :=
   match parse parts with
   | Some c => execute now d c oracle
   | None => (r_err, d)
